@@ -182,55 +182,127 @@ Theorem C07_value_access_failure : forall f c accs,
   snd (value_access f c accs) <> 0 -> value_access f c accs = (invalid_access, 1).
 Proof. exact value_access_failure. Qed.
 
-(* argument validation of the builtins: a rejected argument costs at least one diagnostic — with ONE exception
-   that mirrors the implementation: a CLOSED provider-input record with an extra key is rejected by a `false`
-   subschema that reports nothing itself, and nothing is reported when the inputs contain unknowns
-   ([silent_accept]; the witness shows the exception is real).  The string / string-array validations of
-   fn::join, fn::toBase64, fn::fromBase64, fn::fromJSON always report. *)
-Theorem C07_typed_failure : forall W f E x a id s,
+(* argument validation of the builtins: a rejected argument costs at least one diagnostic — with TWO exceptions
+   that mirror the implementation:
+   (1) a CLOSED provider-input record with an extra key is rejected by a `false` subschema that reports nothing
+       itself, and nothing is reported when the inputs contain unknowns ([silent_accept]);
+   (2) an UNKNOWN value whose schema is `false` is rejected by validateSchemaType without reporting
+       (eval_validate.go:191-193) and evaluateTypedExpr's fallback is skipped for values containing unknowns
+       (eval.go:565): the decidable class [never_arg a v] (Proofs/EvalTotalFail.v) — the argument itself, an element of a
+       known array / a prefix item of an unknown array argument of fn::join, a declared property of known provider
+       inputs.  Such values arise while checking, e.g. ${o.tok} where provider o declares {type: object}
+       (known finding C06-schema-absent-is-never).
+   For each statement T that (2) makes false: T_refuted (computed witness: the program of [never_program]) and
+   T_partial (T with the one extra hypothesis that the argument is outside [never_arg]).  The witnesses show both
+   exceptions are real. *)
+Theorem C07_typed_failure_refuted :
+  exists W f E x a id s,
+    let t := eval_typed W (S f) E x a id s in
+    snd (fst t) = false /\ silent_accept a = false /\ nerr (snd t) = nerr s.
+Proof. exact eval_typed_failure_refuted. Qed.
+
+Theorem C07_typed_failure_partial : forall W f E x a id s,
   let t := eval_typed W (S f) E x a id s in
   snd (fst t) = false ->
+  never_arg a (fst (fst t)) = false ->
   silent_accept a = false \/ contains_unknowns (fst (fst t)) = false ->
   nerr s + 1 <= nerr (snd t).
-Proof. exact eval_typed_failure. Qed.
+Proof. exact eval_typed_failure_partial. Qed.
 
-Theorem C07_validate_fail_diag : forall a v n,
+Theorem C07_validate_fail_diag_refuted :
+  exists a v, validate a v = (false, 0) /\ silent_accept a = false /\ never_arg a v = true.
+Proof. exact validate_fail_diag_refuted. Qed.
+
+Theorem C07_validate_fail_diag_partial : forall a v n,
+  never_arg a v = false ->
   validate a v = (false, n) -> silent_accept a = false \/ contains_unknowns v = false -> 1 <= n.
-Proof. exact validate_fail_diag. Qed.
+Proof. exact validate_fail_diag_partial. Qed.
 
 Theorem C07_validate_silent_witness :
   validate (AccIn (InRecord [] [] true)) [LObj false false ScAlways [("x", [unknown_layer false ScAlways])]] = (false, 0).
 Proof. exact validate_silent_witness. Qed.
 
+(* every position of the class, on the smallest values *)
+Theorem C07_validate_silent_never_witness :
+  validate AccString [unknown_layer false ScNever] = (false, 0)
+  /\ validate AccArrString [unknown_layer false ScNever] = (false, 0)
+  /\ validate AccArrString [LArr false false (ScArray [ScNever; ScType "string"] (Some ScNever))
+                              [[unknown_layer false ScNever]; [str_layer false false "hello"]]] = (false, 0)
+  /\ validate AccArrString [unknown_layer false (ScArray [ScNever] (Some ScNever))] = (false, 0)
+  /\ validate (AccIn (InRecord [] [] false)) [unknown_layer false ScNever] = (false, 0)
+  /\ validate (AccIn (InRecord [("region", "string")] [] false))
+       [LObj false false (ScObject [("region", ScNever)] None) [("region", [unknown_layer false ScNever])]] = (false, 0).
+Proof. exact validate_silent_never_witness. Qed.
+
+(* the whole program: provider p declares {type: object}; checking; join element, join delimiter, toBase64, fromBase64,
+   fromJSON and a record-typed provider input fed with ${o.tok}: all unknown, NO diagnostic *)
+Theorem C07_never_program_silent :
+  let o := run 100 never_world "root" never_program in
+  ob_errors o = false /\ ob_oof o = false
+  /\ ob_value o = Some (XObj false false
+       [("c", XScalar false true SNull); ("d", XScalar false true SNull); ("e", XScalar false true SNull);
+        ("f", XScalar false true SNull); ("g", XScalar false true SNull); ("h", XScalar false true SNull);
+        ("o", XScalar false true SNull)]).
+Proof. exact never_program_silent. Qed.
+
 (* ... and the builtin then yields an unknown value of its result type *)
-Theorem C07_tob64_bad_argument : forall W f E e xbase id s,
+Theorem C07_tob64_bad_argument_refuted :
+  exists W f E e id s,
+    let t := eval_typed W (S f) E e AccString (arg_id id 0) s in
+    snd (fst t) = false /\ nerr (snd t) = nerr s.
+Proof. exact tob64_bad_argument_refuted. Qed.
+
+Theorem C07_tob64_bad_argument_partial : forall W f E e xbase id s,
   let t := eval_typed W (S f) E e AccString (arg_id id 0) s in
   snd (fst t) = false ->
+  never_arg AccString (fst (fst t)) = false ->
   eval_repr W (S (S f)) E (EToB64 e) xbase id s = ([unknown_layer false (ScType "string")], snd t)
   /\ nerr s + 1 <= nerr (snd t).
-Proof. exact tob64_bad_argument. Qed.
+Proof. exact tob64_bad_argument_partial. Qed.
 
-Theorem C07_fromb64_bad_argument : forall W f E e xbase id s,
+Theorem C07_fromb64_bad_argument_refuted :
+  exists W f E e id s,
+    let t := eval_typed W (S f) E e AccString (arg_id id 0) s in
+    snd (fst t) = false /\ nerr (snd t) = nerr s.
+Proof. exact tob64_bad_argument_refuted. Qed.
+
+Theorem C07_fromb64_bad_argument_partial : forall W f E e xbase id s,
   let t := eval_typed W (S f) E e AccString (arg_id id 0) s in
   snd (fst t) = false ->
+  never_arg AccString (fst (fst t)) = false ->
   eval_repr W (S (S f)) E (EFromB64 e) xbase id s = ([unknown_layer false (ScType "string")], snd t)
   /\ nerr s + 1 <= nerr (snd t).
-Proof. exact fromb64_bad_argument. Qed.
+Proof. exact fromb64_bad_argument_partial. Qed.
 
-Theorem C07_fromjson_bad_argument : forall W f E e xbase id s,
+Theorem C07_fromjson_bad_argument_refuted :
+  exists W f E e id s,
+    let t := eval_typed W (S f) E e AccString (arg_id id 0) s in
+    snd (fst t) = false /\ nerr (snd t) = nerr s.
+Proof. exact tob64_bad_argument_refuted. Qed.
+
+Theorem C07_fromjson_bad_argument_partial : forall W f E e xbase id s,
   let t := eval_typed W (S f) E e AccString (arg_id id 0) s in
   snd (fst t) = false ->
+  never_arg AccString (fst (fst t)) = false ->
   eval_repr W (S (S f)) E (EFromJSON e) xbase id s = ([unknown_layer false ScAlways], snd t)
   /\ nerr s + 1 <= nerr (snd t).
-Proof. exact fromjson_bad_argument. Qed.
+Proof. exact fromjson_bad_argument_partial. Qed.
 
-Theorem C07_join_bad_argument : forall W f E d vs xbase id s,
+Theorem C07_join_bad_argument_refuted :
+  exists W f E d vs id s,
+    let t1 := eval_typed W (S f) E d AccString (arg_id id 0) s in
+    let t2 := eval_typed W (S f) E vs AccArrString (arg_id id 1) (snd t1) in
+    (snd (fst t1) = false \/ snd (fst t2) = false) /\ nerr (snd t2) = nerr s.
+Proof. exact join_bad_argument_refuted. Qed.
+
+Theorem C07_join_bad_argument_partial : forall W f E d vs xbase id s,
   let t1 := eval_typed W (S f) E d AccString (arg_id id 0) s in
   let t2 := eval_typed W (S f) E vs AccArrString (arg_id id 1) (snd t1) in
   snd (fst t1) = false \/ snd (fst t2) = false ->
+  never_arg AccString (fst (fst t1)) = false /\ never_arg AccArrString (fst (fst t2)) = false ->
   eval_repr W (S (S f)) E (EJoin d vs) xbase id s = ([unknown_layer false (ScType "string")], snd t2)
   /\ nerr s + 1 <= nerr (snd t2).
-Proof. exact join_bad_argument. Qed.
+Proof. exact join_bad_argument_partial. Qed.
 
 (* well-typed argument, malformed contents *)
 Theorem C07_fromb64_bad_text : forall W f E e xbase id s sec' unk' sc' txt rest,
